@@ -387,11 +387,12 @@ def decode_changes(out):
 def canon_dump(schema):
     """Order-insensitive canonical form of the dump (for 'sorting changes only ordering')."""
     from graphql import print_ast
-    from graphql.utilities import get_default_value_ast, sort_value_node
+    from graphql.utilities import get_default_value_ast
+    from graphql.utilities.sort_value_node import sort_value_node
 
     def canon(x):
         if isinstance(x, dict):
-            return {k: canon(v) for k, v in x.items()}
+            return {k: (v if k == "roots" else canon(v)) for k, v in x.items()}
         if isinstance(x, list):
             l = [canon(v) for v in x]
             return sorted(l, key=lambda v: v["name"] if isinstance(v, dict) else v)
@@ -466,7 +467,7 @@ def run(tier):
     ck.count("natural_order_pairs", len(cases))
 
     # ---- generated schemas -----------------------------------------------------------
-    nschemas = 120 if quick else 1500
+    nschemas = 100 if quick else 1500
     specs = []
     for i in range(nschemas):
         spec = G.gen_spec(rng, size=rng.randint(1, 3), adversarial=i % 3 != 0)
@@ -507,10 +508,7 @@ def run(tier):
             if ch:
                 viol(key, f"find_schema_changes{nm} reports {ch[0].type.name}: {ch[0].description}",
                      dict(rep, changes=[c.description for c in ch[:5]]))
-        try:
-            d = G.first_diff(canon_dump(s), canon_dump(ss))
-        except Exception as e:  # noqa: BLE001
-            d = f"dump raised {type(e).__name__}: {e}"
+        d = G.first_diff(canon_dump(s), canon_dump(ss))
         if d:
             viol(key, f"sorting changed more than ordering: {d}", dict(rep, sorted=psorted))
         e0 = G.encode_schema(s, canon_defaults=True)
@@ -531,8 +529,10 @@ def run(tier):
         if o_d1 != [1, 0] or o_d2 != [1, 0]:
             raise RuntimeError("model diff s s / diff s (sort s) is not empty: contradicts the proved theorems")
 
+    import time
+    ck.extra['t_sort'] = round(time.time() - ck.t0, 1)
     # (M) single-edit mutants
-    nmut = 4 if quick else 8
+    nmut = 3 if quick else 8
     cases, meta = [], []
     for spec, mode, s in specs:
         for _ in range(nmut):
@@ -581,8 +581,8 @@ def run(tier):
     ck.count("mutant_pairs", len(cases))
     ck.extra["change_kinds_seen"] = sorted(kinds_seen)
 
+    ck.extra['t_mut'] = round(time.time() - ck.t0, 1)
     # (E) extension pairs
-    noops = ["{ a }", "query Q { __typename } fragment F on Query { __typename }", "fragment G on Foo { x }"]
     next_ = 2 if quick else 4
     for spec, mode, _s in specs:
         sdl_a = G.spec_to_sdl(spec)
@@ -632,6 +632,8 @@ def run(tier):
             if ch:
                 viol(key, f"find_schema_changes(extend, together) reports {ch[0].description}", rep)
         # no-op documents return the identical object
+        noops = ["{ a }", "query Q { __typename }", "fragment F on %s { __typename }" % spec.query,
+                 "query { ...F } fragment F on %s { __typename }" % spec.query]
         for nd in noops:
             try:
                 r = extend_schema(s, parse(nd))
